@@ -1054,6 +1054,11 @@ func (w *World) isUDPConn(f *ssa.Function, conn ssa.Value) (bool, string) {
 
 // ---------- EXIT
 
+var levelCallees = map[string]bool{
+	"(*go.uber.org/zap.SugaredLogger).Log": true, "(*go.uber.org/zap.SugaredLogger).Logf": true, "(*go.uber.org/zap.SugaredLogger).Logln": true, "(*go.uber.org/zap.SugaredLogger).Logw": true,
+	"(*go.uber.org/zap.Logger).Log": true,
+}
+
 var exitCallees = map[string]bool{
 	"os.Exit": true, "builtin.panic": true, "log.Fatal": true, "log.Fatalf": true, "log.Fatalln": true, "log.Panic": true, "log.Panicf": true, "log.Panicln": true,
 	"(*go.uber.org/zap.SugaredLogger).Fatal": true, "(*go.uber.org/zap.SugaredLogger).Fatalf": true, "(*go.uber.org/zap.SugaredLogger).Fatalln": true, "(*go.uber.org/zap.SugaredLogger).Fatalw": true,
@@ -1074,6 +1079,18 @@ func (e *oblEngine) exitObls(f *ssa.Function) {
 			e.record("EXIT", f, i, c, false, false, "explicit panic on the receive path")
 		case ssa.CallInstruction:
 			n := calleeName(x)
+			if levelCallees[n] {
+				// zap's Log*(level, …): a level that is not a constant below DPanic can be Panic (panics) or
+				// Fatal (os.Exit) — e.g. the configured log level handed on as the level of a message
+				args := x.Common().Args
+				if len(args) >= 2 {
+					if k, isK := constInt(args[1]); !isK || k >= 3 {
+						c := e.constructOf(f, x.Pos(), func(n ast.Node) bool { _, ok := n.(*ast.CallExpr); return ok }, n)
+						e.record("EXIT", f, i, c, false, false, n+" with a level that is not a constant below DPanic: at level panic zap panics, at level fatal it ends the process")
+					}
+				}
+				return
+			}
 			if !exitCallees[n] {
 				return
 			}
